@@ -1,18 +1,21 @@
 import Driver.Util
 import Driver.Locals
+import Driver.Iter
 open Driver
 
-def step (line : String) : String :=
+def step (line : String) : List String :=
   match splitWs line with
-  | "locals" :: rest => runLocals rest
-  | [] => ""
-  | f :: _ => s!"{f} ? unknown-family"
+  | "locals" :: rest => [runLocals rest]
+  | "iter" :: rest => runIter rest
+  | "compiter" :: rest => runCompIter rest
+  | [] => []
+  | f :: _ => [s!"{f} ? unknown-family"]
 
 partial def loop (h : IO.FS.Stream) (out : IO.FS.Stream) : IO Unit := do
   let line ← h.getLine
   if line.isEmpty then return ()
-  let r := step line
-  if r ≠ "" then out.putStrLn r
+  for r in step line do
+    out.putStrLn r
   loop h out
 
 def main : IO Unit := do
